@@ -231,6 +231,28 @@ PROPS = {
                    'visible directories are listed although `hidden` is unset (the man page speaks of hidden directories).',
         technique='Lean 4 proof (structural theorems over the visit recursion) + model/implementation correspondence on generated trees',
     ),
+    'C17': dict(
+        areas=[('bind', 10000, 1500000), ('filter', 2000, 100000)],
+        rule='bind strings rendered from (keys, actions) structures: 1..3 groups, 1..2 keys each (letters, ctrl-/alt- chords, named '
+             'keys, punctuation), 1..3 actions each, argument-taking actions in every documented delimiter form (parentheses, '
+             'brackets, braces, angle brackets, 12 matching punctuation pairs, trailing colon), arguments containing + , : and the '
+             'delimiter characters of other forms, mixed-case action names; raw strings of bind syntax fragments; option vectors over '
+             'a vocabulary of 45 option spellings (flags, --opt=value, --opt value, integers incl. invalid ones) with and without '
+             '$FZF_DEFAULT_OPTS; argv order / override noise in the filter area; non-trivial = a structured bind string, or an '
+             'accepted option vector of >= 2 arguments; distinct = distinct case lines',
+        trusted=['the key-name table (parseKeyChords is used to resolve the key names of the intended structure)',
+                 'go-shellwords for splitting $FZF_DEFAULT_OPTS', 'the ~150 option value parsers outside the modelled vocabulary '
+                 '(exercised for "no crash" only)'],
+        level_text='Lean 4 theorems: masking of action arguments preserves the length of the bind string for every string and every '
+                   'set of action names (the invariant the offset-based splitting relies on); a later flag overrides whatever came '
+                   'before; the command line is a later layer over $FZF_DEFAULT_OPTS; a valued option consumes exactly the next '
+                   'argument. The set of argument-taking actions is regenerated from executeRegexp on every run. maskActionContents '
+                   'and ParseOptions (dump of 19 fields) are compared with the model; parseKeymap is judged against the structure '
+                   'the bind string was rendered from (every key gets exactly the listed actions, arguments verbatim).',
+        level_note='Partial: bind round-trip for ALL strings is checked per case, not proved; only part of the option vocabulary is '
+                   'modelled; exit status 2 on rejection is observed at process level by the pipe driver only for filter options.',
+        technique='Lean 4 proof (length invariant by induction, override theorems over a fold) + correspondence and intent round-trip',
+    ),
     'C18': dict(
         level_text='Lean 4 theorems over a hand-written model of src/history.go (file contents after any sequence of '
                    'sessions, cursor range, slot-editor refinement, edits never persisted), tied to /repo by an in-process '
